@@ -30,6 +30,7 @@ from . import protocol_base
 from . import (
     DecodeError,
     RepeatLeadInError,
+    LeadInError,
     LeadOutError,
     TooManyBitsError,
     NotEnoughBitsError,
@@ -101,6 +102,9 @@ class DirecTV(protocol_base.IrProtocolBase):
         original_code = data[:]
         code = data[:]
 
+        if len(code) < 2:
+            raise LeadInError
+
         if (
             self._match(code[0], self._lead_in1[0]) and
             self._match(code[1], self._lead_in1[1])
@@ -130,6 +134,9 @@ class DirecTV(protocol_base.IrProtocolBase):
             self._saved_code = None
 
         decoded = []
+
+        if len(code) % 2:
+            raise IRStreamError
 
         for i in range(0, len(code), 2):
             mark = code[i]
